@@ -77,12 +77,14 @@ def scratch_dir(tag="s"):
 # running garden
 
 
-def limit_memory():
-    """Children get a bounded address space: a non-terminating allocation in
-    the code under test must kill that child, not the machine."""
-    import resource
-    gb = int(os.environ.get("VERIF_GARDEN_AS_GB", "6"))
-    resource.setrlimit(resource.RLIMIT_AS, (gb << 30, gb << 30))
+def limited(argv, gb=None):
+    """argv run with a bounded address space: a non-terminating allocation in
+    the code under test must kill that child, not the machine.  Done by a
+    shell `ulimit` + exec rather than a preexec_fn: with a preexec_fn Python
+    has to fork() the whole (large) checker process for every child, which
+    serialises the worker threads; without one it can vfork."""
+    gb = gb or int(os.environ.get("VERIF_GARDEN_AS_GB", "6"))
+    return ["/bin/sh", "-c", f'ulimit -v {gb << 20}; exec "$0" "$@"'] + list(argv)
 
 
 def garden(args, input=None, timeout=30, cwd=None, env=None):
@@ -95,9 +97,9 @@ def garden(args, input=None, timeout=30, cwd=None, env=None):
         e.update(env)
     try:
         kw = {"input": input} if input is not None else {"stdin": subprocess.DEVNULL}
-        p = subprocess.run([GARDEN] + list(args), cwd=cwd, env=e,
+        p = subprocess.run(limited([GARDEN] + list(args)), cwd=cwd, env=e,
                            stdout=subprocess.PIPE, stderr=subprocess.PIPE,
-                           timeout=timeout, preexec_fn=limit_memory, **kw)
+                           timeout=timeout, **kw)
         return p.returncode, p.stdout.decode("utf-8", "replace"), p.stderr.decode("utf-8", "replace")
     except subprocess.TimeoutExpired as ex:
         out = (ex.stdout or b"").decode("utf-8", "replace")
@@ -138,8 +140,8 @@ def _batch_chunk(mode, recs, timeout_per, env, cwd=None):
                 for r in recs[i:]:
                     f.write(json.dumps(r) + "\n")
             errf = open(os.path.join(d, "stderr"), "wb")
-            p = subprocess.Popen([GARDEN, "verif-batch", mode, path], cwd=cwd, env=e, stdin=subprocess.DEVNULL,
-                                 stdout=subprocess.PIPE, stderr=errf, preexec_fn=limit_memory)
+            p = subprocess.Popen(limited([GARDEN, "verif-batch", mode, path]), cwd=cwd, env=e, stdin=subprocess.DEVNULL,
+                                 stdout=subprocess.PIPE, stderr=errf)
             q = queue.Queue()
 
             def pump(out=p.stdout, q=q):
